@@ -424,8 +424,8 @@ META = {
             "C24_composition (C24_bypass_none_declared); latency = sum of link latencies (C24_bypass_latency_sum). Two defects of the "
             "pinned code are refuted in Coq, reproduced on the real code and repaired: rbegin()/rend() on the way up "
             "(C24_pinned_refuted) and the local route that completes a bypass inside a Dijkstra zone being put in front of the "
-            "links found before (C24_bypass_pinned_refuted, witness with endpoints at unequal depths). Tie: on generated 2- and "
-            "3-level platforms (about half of them with zone-level bypass routes between zones at any depth of two branches and "
+            "links found before (C24_bypass_pinned_refuted, witness with endpoints at unequal depths). Tie: on generated 2-, 3- and "
+            "4-level platforms (about half of them with zone-level bypass routes between zones at any depth of two branches and "
             "host-level ones; a corpus platform with endpoints at unequal depths) the extracted groute, instantiated with each real "
             "zone's own get_local_route answers and bypass_routes_ table, must reproduce Host::route_to (links and latency) for all "
             "host pairs.",
@@ -436,8 +436,9 @@ META = {
             "limiter links without adding their latency (finding limiter-latency-not-counted). Trusted: Coq kernel, extraction, "
             "routing_drv (private access to get_local_route and bypass_routes_), the Python generator/encoder. Mutants "
             "(corpus/C24/mutants): m1 up segments reversed, m2 down segments in front, m3 revert of fix 55e64c69b6, m4 bypass links "
-            "before the way up, m5 search skips (0,0), seeded min-instead-of-max loop bound; harmless h1 larger loop bound, h2 "
-            "reordered tests.",
+            "before the way up, m5 search skips (0,0), m6 last hop of the way down in front, seeded min-instead-of-max loop bound "
+            "all fire (m2 only differs from 4 levels on: the second batch nests one more Star level); harmless h1 larger loop "
+            "bound, h2 reordered tests stay quiet.",
     "technique": "Coq proof over abstract local routes and bypass tables + extracted-model correspondence instantiated with the zones' own answers",
     "claimed": True,
 }
